@@ -236,7 +236,8 @@ package samlsp
 //@ contract RequireAttribute$1$1
 //@ requires[cfg] r: r != nil && w != nil
 //@ -- admitted only with a session in the context whose attribute map lists the required value under the required name
-//@ assert@call[C16] ServeHTTP #1 (h http.Handler, w2 http.ResponseWriter, r2 *http.Request) uses session Session, v string, value string, ok bool admits_only_on_match:
-//@    session != nil && ok && v == value
+//@ -- (stated over the attribute map, not over the loop variable and the comma-ok flag of one way to search it)
+//@ assert@call[C16] ServeHTTP #1 (h http.Handler, w2 http.ResponseWriter, r2 *http.Request) uses session Session, attributes Attributes, name string, value string admits_only_on_match:
+//@    session != nil && exists(0, len(attributes[name]), func(k int) bool { return attributes[name][k] == value })
 //@ assert@call[C16] GetAttributes #1 (sa SessionWithAttributes) uses session Session attributes_of_context_session:
 //@    sa == session.(SessionWithAttributes)
